@@ -986,6 +986,10 @@ class Translator:
             for d in dims:
                 cnt *= d
             return Val.from_flat('S', tuple(dims), ['nzero' if name == 'zeros' else 'nunit'] * cnt)
+        if name == 'solve' and len(args) == 2 and not kw and base in ('np.linalg', 'jnp.linalg', 'jax.numpy.linalg'):
+            # dense 3x3 solve(A, B) = inv(A) @ B with the cofactor inverse (LAPACK differs only by rounding)
+            ainv = self.np_call(base, 'inv', [args[0]], {}, node)
+            return self.matmul(ainv, A(1))
         if name in ('det', 'inv') and len(args) == 1 and base in ('np.linalg', 'jnp.linalg', 'jax.numpy.linalg'):
             # dense 3x3 determinant / inverse, modelled by the cofactor formulas (LAPACK differs only by rounding)
             v = A(0)
